@@ -348,7 +348,8 @@ pub trait Gradient2: Gradient1 {
         let indices: Vec<Option<usize>> =
             vars.iter().map(|x| self.vars().get_index_of(x)).collect();
 
-        let default_zero = Dual2::new(0., vars.clone());
+        let mut default_zero = Dual2::new(0., vars.clone());
+        default_zero.dual.fill(0.0); // a variable the number does not depend on has zero sensitivity everywhere
         let mut grad: Array1<Dual2> = Array1::zeros(vars.len());
         for (i, i_idx) in indices.iter().enumerate() {
             match i_idx {
